@@ -175,6 +175,14 @@ Definition ex_focus : list bool := [true; false; true].
 Example ex_model_agrees : C04_agree ex_lay ex_focus ex_presence ex_obs = true.
 Proof. vm_compute. reflexivity. Qed.
 
+(* the same observations also agree with the model when the reference run gives the non-focus parameter 1 another
+   presence history (the group still steps at the same moments), and in the non-strict comparison mode *)
+Example ex_model_agrees_other_presence :
+  C04_agree_gen true ex_lay ex_focus ex_presence
+    [[true; true; true]; [false; true; false]; [false; false; false]; [true; false; false]; [false; false; true]] ex_obs = true
+  /\ C04_agree_gen false ex_lay ex_focus ex_presence ex_presence ex_obs = true.
+Proof. split; vm_compute; reflexivity. Qed.
+
 Example ex_checker_accepts : C04_checkb ex_lay ex_focus ex_presence ex_obs = true.
 Proof. vm_compute. reflexivity. Qed.
 
